@@ -27,6 +27,7 @@ class AsmRun:
         self.exc_class = None
         self.exc_msg = None
         self.exc_site = None
+        self.exc_phase = None
         self.stmts = []
         self.image = None
         self.symbols = {}
@@ -218,6 +219,12 @@ def _assemble_native(env, lines, want_listing, fs, bytes_of=None, session=None):
                         fr.append("%s:%s" % (os.path.basename(co.co_filename), getattr(co, "co_qualname", co.co_name)))
                     t = t.tb_next
                 r.exc_site = "<".join(reversed(fr[-2:]))
+                # the PHASE in which it happened: the outermost public method below Program.process (stable under extraction of
+                # helpers and renaming of private functions)
+                names = [x.split(":", 1)[1] for x in fr]
+                below = names[names.index("Program.process") + 1:] if "Program.process" in names else names
+                pub = [n for n in below if "<" not in n and not n.split(".")[-1].startswith("_")]
+                r.exc_phase = pub[0] if pub else (below[0] if below else None)
             except Exception:  # noqa
                 r.exc_site = None
             return r
